@@ -82,6 +82,78 @@ def setup():
     return 0
 
 
+def thorough_extras(prop, mod, arg, seed, res):
+    """thorough tier = the quick analysis, plus (a) the same rule over the RELEASE-profile MIR (overflow checks
+    off: arithmetic wraps instead of panicking - the build users run), plus (b) mutation controls: every
+    selftest/<name>.patch registered for this property is applied to a scratch copy of /repo's current
+    working tree and the rule must report it (benign variants must stay silent).  Nothing is executed."""
+    # (a) release profile
+    rfacts = factsmod.load("release")
+    rres = Result(prop)
+    mod.run({"facts": rfacts, "tier": "thorough", "seed": seed, "prop": prop, "arg": arg}, rres)
+    have = set(f["key"] for f in res.findings)
+    for f in rres.findings:
+        if f["key"] not in have:
+            f = dict(f)
+            f["msg"] += " [release profile only]"
+            res.findings.append(f)
+    res.obligations += rres.obligations
+    res.discharged += rres.discharged
+    res.evaluations += rres.evaluations
+    for e in rres.errors:
+        res.errors.append("release profile: " + e)
+    for n, m, fl in rres.floors:
+        res.floors.append(("release profile: " + n, m, fl))
+    res.inventory["release_profile"] = {"facts_file": os.path.basename(rfacts.path), "obligations": rres.obligations, "discharged": rres.discharged,
+                                        "findings": [f["key"] for f in rres.findings]}
+    # (b) mutation controls on scratch copies
+    idxp = os.path.join(VERIF, "selftest", "index.json")
+    if not os.path.exists(idxp):
+        res.errors.append("selftest/index.json missing: no mutation controls")
+        return
+    with open(idxp) as fh:
+        ctl = [e for e in json.load(fh) if e["property"] == prop]
+    import shutil
+    import tempfile
+    report = []
+    ran = 0
+    for e in ctl:
+        d = tempfile.mkdtemp(prefix="h8ctl-")
+        try:
+            scratch = os.path.join(d, "repo")
+            subprocess.check_call(["rsync", "-a", "--exclude", "target", "--exclude", ".git", factsmod.REPO + "/", scratch + "/"])
+            pa = subprocess.run(["patch", "-p1", "-s", "--no-backup-if-mismatch", "-d", scratch, "-i", os.path.join(VERIF, "selftest", e["name"] + ".patch")],
+                                stdout=subprocess.PIPE, stderr=subprocess.STDOUT, text=True)
+            if pa.returncode != 0:
+                report.append({"control": e["name"], "status": "skipped: the patch does not apply to the current tree"})
+                continue
+            out = os.path.join(d, "out.json")
+            env = dict(os.environ, H8_REPO=scratch)
+            pr = subprocess.run([sys.executable, os.path.join(HERE, "cli.py"), prop, "--tier", "quick", "--json-out", out], env=env, stdout=subprocess.PIPE, stderr=subprocess.STDOUT, text=True)
+            if not os.path.exists(out):
+                report.append({"control": e["name"], "status": "checker failed on the mutated copy", "output": pr.stdout[-300:]})
+                res.errors.append("mutation control %s: the checker failed on the mutated copy" % e["name"])
+                continue
+            with open(out) as fh:
+                r = json.load(fh)
+            ran += 1
+            if e.get("benign"):
+                okc = not r["findings"] or set(r["findings"]) <= set(f["key"] for f in res.findings)
+                report.append({"control": e["name"], "kind": "benign variant", "status": "silent" if okc else "FALSE ALARM", "findings": r["findings"][:3]})
+                if not okc:
+                    res.errors.append("mutation control %s (benign variant) raises %r: the rule over-approximates" % (e["name"], r["findings"][:3]))
+            else:
+                okc = any(e["expect"] in k for k in r["findings"])
+                report.append({"control": e["name"], "kind": "seeded fault", "status": "caught" if okc else "MISSED", "expected": e["expect"], "findings": r["findings"][:3]})
+                if not okc:
+                    res.errors.append("mutation control %s is not reported (expected a finding containing %r): the rule lost its teeth" % (e["name"], e["expect"]))
+            res.ob(okc)
+        finally:
+            shutil.rmtree(d, ignore_errors=True)
+    res.inventory["mutation_controls"] = report
+    res.inventory["mutation_controls_run"] = ran
+
+
 def load_known():
     p = os.path.join(VERIF, "known_findings.json")
     if not os.path.exists(p):
@@ -121,11 +193,16 @@ def main(argv):
     t0 = time.time()
     modname, arg = RULES[prop]
     res = Result(prop)
+    json_out = None
+    if "--json-out" in argv:
+        json_out = argv[argv.index("--json-out") + 1]
     try:
         facts = factsmod.load("dev")
         mod = importlib.import_module(modname)
         ctx = {"facts": facts, "tier": tier, "seed": seed, "prop": prop, "arg": arg}
         mod.run(ctx, res)
+        if tier == "thorough" and json_out is None:
+            thorough_extras(prop, mod, arg, seed, res)
     except factsmod.FactsError as e:
         print("CHECKER-ERROR property=%s facts: %s" % (prop, e))
         return 2
@@ -134,6 +211,14 @@ def main(argv):
         print("CHECKER-ERROR property=%s %s: %s" % (prop, type(e).__name__, e))
         return 2
     wall = time.time() - t0
+    if json_out is not None:
+        # used by the mutation controls: findings and errors only, no evidence / replay files
+        for name, measured, floor in res.floors:
+            if measured < floor:
+                res.errors.append("floor not met: %s" % name)
+        with open(json_out, "w") as fh:
+            json.dump({"findings": [f["key"] for f in res.findings], "errors": res.errors}, fh)
+        return 0
     known = load_known()
     kmap = {}
     for k in known.get("known", []):
